@@ -1,8 +1,8 @@
 import QV.Model.Compiler
 import QV.Proofs.Circuit
 import QV.Proofs.CompilerInv
-import QV.Proofs.CompilerSem
-import QV.Proofs.CompilerSem2
+-- PORT-PENDING import QV.Proofs.CompilerSem   (semantic proofs not yet ported to the repaired compiler model,
+-- PORT-PENDING import QV.Proofs.CompilerSem2   see docs/notes/PORT-PENDING.md)
 /-!
 # C02 – The circuit computes the function's boolean expressions
 
@@ -11,9 +11,11 @@ classical input, running the circuit on the basis state that holds the argument 
 other qubits zero) leaves on each output qubit exactly the value of the corresponding return
 expression.  Every return bit is mapped to a qubit, with and without final uncomputation.
 
-`C02_statement` below is the full property about the compiler model.  It is **false** for the
-model of the compiler as it is (the model reproduces the real compiler's wrong circuits gate
-for gate; see `known_findings.json`), so what is proved here is (partial):
+`C02_statement` below is the full property about the compiler model.  The model follows the
+compiler with the repairs of the uncomputation protocol (`docs/fixes/CC-*.diff`; before them the
+statement was false, see the `fixed` entries of `known_findings.json`).  No failing compilation is
+known for the repaired compiler, but `C02_statement` is not proved in general; what is proved here
+is (partial):
 
 * `validate_sound` – the per-instance validator used by the check is sound for *all* inputs:
   a compiled instance that passes it satisfies the property on every input basis state.  The
@@ -30,10 +32,10 @@ for gate; see `known_findings.json`), so what is proved here is (partial):
   return bit is mapped to a qubit"), `compile_inputs_first` (arguments on qubits `0..n-1`),
   `compile_bookkeeping`; with the corollaries `compile_remove_identities_preserves` and
   `compile_reverse_replay_undoes`.  They say nothing about the *values* on the qubits.
-* a **semantic fragment theorem** `C02_fragment_partial`: on the decidable class `inFragment` (one
-  definition `r = e`, `e` a Not/And/Or/Xor expression over the arguments in which no compound
-  sub-expression occurs twice) every successful run of `compile`, with and without final
-  uncomputation, for every admissible ancilla-choice sequence, is `Correct`.
+* **semantic fragment theorems** (`C02_fragment_partial`, … – values on the qubits on decidable
+  classes of programs): proved for the model of the unrepaired compiler, **parked** in
+  `PORT-PENDING` blocks below until `QV/Proofs/CompilerSem*.lean` are ported to the repaired
+  model (`docs/notes/PORT-PENDING.md`).
 -/
 namespace QV.C02
 open QV QV.Compiler
@@ -161,8 +163,9 @@ theorem compile_reverse_replay_undoes (inputs : List String) (defs : List (Strin
   runClassical_reverse_undo _ (fun g hg => (compile_gates_wellformed inputs defs ret unc cs s h g hg).2.1) st
 
 /-- **(2) left-hand sides stay mapped.**  Every left-hand symbol of the definition list that is
-not a scratch name (a temporary `__x`, whose name `map_qubit` deletes when the qubit is promoted
-under another name, or an ancilla-shaped name `anc_…`) is a key of the final `qubit_map`, and
+not a scratch name (an ancilla-shaped name `anc_…`, which `map_qubit` deletes when the ancilla it
+names is promoted under another name and `get_free_ancilla` may bind again; temporaries `__x` are
+names like any other since every named qubit is promoted) is a key of the final `qubit_map`, and
 the qubit it names exists. -/
 theorem compile_lhs_mapped (inputs : List String) (defs : List (String × BExp))
     (ret : Option (List String)) (unc : Bool) (cs : List Nat) (s : CState)
@@ -195,7 +198,7 @@ theorem compile_rets_mapped (inputs : List String) (defs : List (String × BExp)
   exact compile_lhs_mapped inputs defs (some rets) unc cs s h p hp hs
 
 /-- what the front end guarantees about the argument names: pairwise distinct, not reserved
-(`TRUE`, `FALSE`, `__…`, `anc_…`) and never re-bound by a definition -/
+(`TRUE`, `FALSE`, `anc_…`) and never re-bound by a definition -/
 def inputsFresh (inputs : List String) (defs : List (String × BExp)) : Bool :=
   decide inputs.Nodup && inputs.all fun n => !reservedName n && !(defs.map (·.1)).contains n
 
@@ -213,10 +216,11 @@ theorem compile_inputs_first (inputs : List String) (defs : List (String × BExp
   exact ⟨hlen, hpos hf.1 (fun n hn => hf.2 n hn)⟩
 
 /-- **(4) bookkeeping that holds**: every index stored in the ancilla set, the free set, the
-marked set and the `qubit_map` is a qubit of the circuit; the ancilla set is duplicate-free; a
-name mapped to a qubit that is still in the ancilla set is a scratch name (so no promoted
-left-hand side sits on an ancilla); no argument qubit (index below the number of inputs) is ever
-in the ancilla, free or marked set, so none is handed out as scratch space. -/
+marked set, the kept set (`kept_ancillas`) and the `qubit_map` is a qubit of the circuit; the
+ancilla set is duplicate-free; a name mapped to a qubit that is still in the ancilla set is a
+scratch name `anc_…` (so no left-hand side sits on an ancilla); no argument qubit (index below the
+number of inputs) is ever in the ancilla, free, marked or kept set, so none is handed out as
+scratch space. -/
 theorem compile_bookkeeping (inputs : List String) (defs : List (String × BExp))
     (ret : Option (List String)) (unc : Bool) (cs : List Nat) (s : CState)
     (h : (compile inputs defs ret unc).run { choices := cs } = .ok ((), s)) :
@@ -224,29 +228,37 @@ theorem compile_bookkeeping (inputs : List String) (defs : List (String × BExp)
     (∀ a ∈ s.qc.marked, a < s.qc.numQubits) ∧ (∀ p ∈ s.qc.qmap, p.2 < s.qc.numQubits) ∧
     s.qc.anc.Nodup ∧ (∀ p ∈ s.qc.qmap, p.2 ∈ s.qc.anc → scratchName p.1 = true) ∧
     (∀ a ∈ s.qc.anc, inputs.length ≤ a) ∧ (∀ a ∈ s.qc.free, inputs.length ≤ a) ∧
-    (∀ a ∈ s.qc.marked, inputs.length ≤ a) :=
+    (∀ a ∈ s.qc.marked, inputs.length ≤ a) ∧
+    (∀ a ∈ s.qc.kept, a < s.qc.numQubits) ∧ (∀ a ∈ s.qc.kept, inputs.length ≤ a) :=
   have hg := (compile_ok h).1
   have hs := (compile_ok h).2.2.2.2
-  ⟨hg.anc_lt, hg.free_lt, hg.marked_lt, hg.qmap_lt, hg.anc_nodup, hg.anc_named, hs.1, hs.2.1, hs.2.2⟩
+  ⟨hg.anc_lt, hg.free_lt, hg.marked_lt, hg.qmap_lt, hg.anc_nodup, hg.anc_named, hs.1, hs.2.1, hs.2.2.1,
+   hg.kept_lt, hs.2.2.2⟩
 
-/-- (4) bookkeeping that does **not** hold: `free ⊆ anc` fails – a temporary that was marked and
-uncomputed early (event `markNamedTemp`, finding `C02-temp-uncomputed-early`) and is promoted
-afterwards leaves the free set holding the qubit the return bit is mapped to -/
-theorem free_subset_anc_fails_witness :
+/-- regression witness of the repaired defect `C02-temp-uncomputed-early`: the program on which the
+unrepaired compiler left the free set holding the qubit the return bit is mapped to (the temporary
+`__t` stayed an ancilla, was marked by its first reader and uncomputed) now promotes `__t`; nothing is
+marked, freed or left in the ancilla set.  (`free ⊆ anc` is still not an invariant of the *model*:
+an `Xor` / `Or` without arguments – which sympy never builds – allocates an ancilla no gate targets;
+`uncompute` frees it without evicting its cache entry, a later definition that is that expression
+is then promoted out of the ancilla set while it sits in the free set.) -/
+theorem temp_promoted_witness :
     (match (compile ["a", "b"] [("__t", .xor [.sym "a", .sym "b"]),
         ("__u", .xor [.not (.sym "__t"), .sym "a"]), ("_ret", .sym "__t")] (some ["_ret"]) false).run
         { choices := [2, 3] } with
-      | .ok (_, s) => s.qc.anc == [3] && s.qc.free == [2] && dictGet? s.qc.qmap "_ret" == some 2
+      | .ok (_, s) => s.qc.anc == [] && s.qc.free == [] && s.qc.marked == [] &&
+          dictGet? s.qc.qmap "_ret" == some 2 && dictGet? s.qc.qmap "__t" == some 2
       | .error _ => false) = true := by decide +kernel
 
-/-- non-vacuity: a run of the model that uses an ancilla, promotes it and deletes a temporary
-name succeeds; its hypotheses `retsDefined` / `inputsFresh` hold -/
+/-- non-vacuity: a run of the model that uses two ancillas, promotes them (deleting their `anc_…`
+names) and keeps the first for the final `uncompute_all` succeeds; its hypotheses `retsDefined` /
+`inputsFresh` hold -/
 example : ∃ s, (compile ["a", "b"] [("__t", .xor [.sym "a", .sym "b"]), ("_ret", .not (.sym "__t"))]
-    (some ["_ret"]) true).run { choices := [2] } = .ok ((), s) := by
+    (some ["_ret"]) true).run { choices := [2, 3] } = .ok ((), s) := by
   have h : ((compile ["a", "b"] [("__t", .xor [.sym "a", .sym "b"]), ("_ret", .not (.sym "__t"))]
-      (some ["_ret"]) true).run { choices := [2] }).toBool = true := by decide +kernel
+      (some ["_ret"]) true).run { choices := [2, 3] }).toBool = true := by decide +kernel
   cases hrun : (compile ["a", "b"] [("__t", .xor [.sym "a", .sym "b"]), ("_ret", .not (.sym "__t"))]
-      (some ["_ret"]) true).run { choices := [2] } with
+      (some ["_ret"]) true).run { choices := [2, 3] } with
   | ok p => exact ⟨p.2, rfl⟩
   | error e => rw [hrun] at h; cases h
 
@@ -258,7 +270,8 @@ example : inputsFresh ["a", "b"] [("__t", .xor [.sym "a", .sym "b"]), ("_ret", .
 
 /-! ## Semantic fragment theorem (values on the qubits)
 
-`C02_statement` is false for the compiler as it is, but it holds on a decidable class of programs:
+(Parked – statements about the model of the unrepaired compiler, see the head of the file.)
+`C02_statement` was false for the unrepaired compiler, but it held on a decidable class of programs:
 a single definition `r = e` whose expression is built from the argument symbols with
 `Not` / `And` / `Or` / `Xor` of any arity (symbols may repeat) and in which no compound
 sub-expression occurs twice.  There every lookup in the expression cache misses, the free set is
@@ -267,6 +280,7 @@ statement only replays gates whose target is a marked ancilla, never the result 
 Proofs: `QV/Proofs/CompilerSem.lean` (`exprSem` / `argsSem` / `xorSem` by mutual structural
 recursion, `compile_single_sem`). -/
 
+/- PORT-PENDING theorem C02_fragment_partial (needs QV.Proofs.CompilerSem; text unchanged)
 /-- **C02 on the tree-like single-definition fragment**, final uncomputation off (`unc = false`) or
 on: every successful run of the compiler model – for every admissible sequence of ancilla choices –
 is `Correct`: on every classical input the qubit mapped to the return name ends with the value of
@@ -289,7 +303,9 @@ theorem C02_fragment_partial (inputs : List String) (defs : List (String × BExp
     refine ⟨q, hq, ?_⟩
     rw [hv]
     simp [evalDefs, envOf]
+PORT-PENDING end -/
 
+/- PORT-PENDING theorem C02_fragment_expr (needs QV.Proofs.CompilerSem; text unchanged)
 /-- Stage A/B in isolation: what `compile_expr` leaves on the qubits, for every expression of the
 fragment compiled without a destination from a state satisfying the invariant `Pre` (argument
 qubits hold the arguments, free set empty, …): the returned qubit holds `⟦e⟧`, every qubit that
@@ -305,6 +321,7 @@ theorem C02_fragment_expr (inputs : List String) (ρ : Env) (σ0 : FState) (r : 
     (by intro p hp'; rw [hcache] at hp'; cases hp') (by intro d hd; cases hd) hsym
     (by intro hs; rw [hns] at hs; cases hs)
   exact ⟨(hv rfl).2, fun q hq => sem.frame q hq (fun hd => by cases hd)⟩
+PORT-PENDING end -/
 
 /-- an instance of the class (n-ary `Or`, nested `And` / `Xor` / `Not`, repeated variables) -/
 example : inFragment ["a", "b", "c"]
@@ -359,6 +376,7 @@ name's qubit holding that name's value when the gate is applied – which `compi
 `X` gates on the symbol's qubit are not replayed but the `MCX` between them is – the freed ancilla is then NOT
 zero, `#eval`-checked counterexamples in `docs/notes/C02_C03_C06.md`). -/
 
+/- PORT-PENDING theorem C02_fragment_consts (needs QV.Proofs.CompilerSem2 (CompilerSem2a-d); text unchanged)
 /-- **(a) constants.**  C02 on single definitions whose expression may contain `True` / `False` (anywhere
 except directly, or under one `Not`, as an argument of `Xor`), including `r = True` / `r = False`; final
 uncomputation on or off; every admissible sequence of ancilla choices.  The class contains `inFragment`
@@ -381,7 +399,9 @@ theorem C02_fragment_consts (inputs : List String) (defs : List (String × BExp)
     refine ⟨q, hq, ?_⟩
     rw [hv]
     simp [evalDefs, envOf]
+PORT-PENDING end -/
 
+/- PORT-PENDING theorem C02_fragment_named (needs QV.Proofs.CompilerSem2 (CompilerSem2a-d); text unchanged)
 /-- **(c) named intermediates.**  C02 on straight-line definition lists (`m0 = e0; …; _ret = f(m0, args)`; every
 right-hand side reads arguments and earlier left-hand sides, any number of times; constants allowed as in (a);
 no cache key twice in the whole list; `Or` with three or more arguments only over compound arguments), final
@@ -397,7 +417,9 @@ theorem C02_fragment_named (inputs : List String) (defs : List (String × BExp))
   obtain ⟨⟨⟨⟨hnd, hfr⟩, hsl⟩, hdist⟩, hrets⟩ := hf
   intro x hx r hr
   exact compile_named_sem h hnd hfr hsl (distinctB_iff.mp hdist) x hx r (hrets r hr)
+PORT-PENDING end -/
 
+/- PORT-PENDING theorem C02_fragment_multi (needs QV.Proofs.CompilerSem2 (CompilerSem2a-d); text unchanged)
 /-- **(b) several return bits.**  C02 on definition lists `_ret.0 = e0; _ret.1 = e1; …` in which every
 right-hand side is an independent tree over the arguments alone (a sub-class of (c)), final uncomputation off. -/
 theorem C02_fragment_multi (inputs : List String) (defs : List (String × BExp)) (rets : List String)
@@ -407,7 +429,9 @@ theorem C02_fragment_multi (inputs : List String) (defs : List (String × BExp))
     Correct s.qc.gates.toList s.qc.numQubits s.qc.qmap inputs defs rets := by
   simp only [inFragmentMulti, Bool.and_eq_true] at hf
   exact C02_fragment_named inputs defs rets choices s hf.1 h
+PORT-PENDING end -/
 
+/- PORT-PENDING theorem C02_free_zero_invariant (needs QV.Proofs.CompilerSem2 (CompilerSem2a-d); text unchanged)
 /-- the step (b)/(c) rest on, in isolation: **"free ⇒ zero" is an invariant of the statement loop on the
 class** – if every qubit of the scratch space (free set and not yet allocated qubits) is zero before a
 straight-line definition list is compiled (invariant `Inv`), it is so afterwards -/
@@ -418,6 +442,7 @@ theorem C02_free_zero_invariant (defs : List (String × BExp)) (scope : List Str
     ∀ q, q ∈ s'.qc.free → cur σ0 s' q = false := by
   obtain ⟨scope', done', hfin, _, _⟩ := defs_sem defs scope env done h hinv hsl (distinctB_iff.mp hd)
   exact fun q hq => hfin.pre.zero q (Or.inl hq)
+PORT-PENDING end -/
 
 /-- instances of the three classes -/
 example : inFragmentConst ["a", "b", "c"]
